@@ -19,9 +19,55 @@ RULE = ('2-40 rows with distinct positive wavelengths (linear / log / random spa
 ASSUMPTIONS = ['argsort = stable insertion sort by key (distinct wavelengths)',
                'np.loadtxt / np.savetxt(%.17g) and h5py round-trip float64 exactly (container I/O is external: files are '
                'really written and really read by the repo loaders)',
-               'np.searchsorted as in C05; rounding not modelled: rel 1e-12 on loaded quantities, 1e-10 on binned']
+               'np.searchsorted as in C05; rounding not modelled: rel 1e-12 on loaded quantities, 1e-10 on binned',
+               'source tie: the numpy primitives are the definitions of lean/TaurexModel/Gen/Prelude.lean (element-wise ops with 1-D broadcasting, slices, searchsorted = count, stable argsort, masks, np.where, take); the list dialect of the translator (harness/translate_list.py) is part of the trusted base']
 
 REL = 1e-12
+
+# source tie (list dialect of the source translator, harness/translate_list.py): regenerated on every run into
+# lean/TaurexModel/Gen/SrcC17.lean; lean/Props/C17Src.lean proves each definition equal to the model
+# (TaurexModel/Observation.lean).  `self._obs_spectrum` is a 2-D array (`List (List α)`, one inner list per row); an object
+# is represented by the values of the attributes its methods assign (`state`).
+_AS = 'taurex/data/spectrum/array.py'
+_AS_ATTRS = {'self._obs_spectrum': ('obs', 'rows'), 'self._bin_widths': ('bin_widths', 'list'),
+             'self._bin_edges': ('bin_edges', 'list'), 'self._wnwidths': ('wnwidths', 'list')}
+
+
+def _as(func, **kw):
+    return dict(dialect='list', module=_AS, cls='ArraySpectrum', func=func, callname='self.' + func,
+                lean=func.lstrip('_'), params={}, attrs=_AS_ATTRS, rows_ncols='ncols', **kw)
+
+
+SRC_SPECS = [
+    dict(dialect='list', module='taurex/util/util.py', func='compute_bin_edges', lean='compute_bin_edges',
+         params=dict(wngrid='list')),
+    dict(dialect='list', module='taurex/util/util.py', func='wnwidth_to_wlwidth', lean='wnwidth_to_wlwidth',
+         params=dict(wngrid='list', wnwidth='list')),
+    dict(dialect='list', module='taurex/binning/fluxbinner.py', cls='FluxBinner', func='__init__', callname='FluxBinner',
+         lean='fluxbinner_init', params=dict(wngrid='list', wngrid_width='list'),
+         attrs={'self._wngrid': ('u_wngrid', 'list'), 'self._wngrid_width': ('u_wngrid_width', 'list')},
+         state=['self._wngrid', 'self._wngrid_width'], raise_value='([], [])'),
+    _as('rawData', prop=True),
+    _as('wavelengthGrid', prop=True),
+    _as('_sort_spectrum', state=['self._obs_spectrum']),
+    _as('manual_binning', state=['self._bin_edges', 'self._bin_widths']),
+    _as('_process_spectrum', state=['self._bin_widths', 'self._bin_edges']),
+    dict(_as('__init__', state=['self._obs_spectrum', 'self._bin_widths', 'self._bin_edges', 'self._wnwidths']),
+         callname='ArraySpectrum', lean='arrayspectrum_init', params=dict(spectrum='rows')),
+    _as('spectrum', prop=True),
+    _as('wavenumberGrid', prop=True),
+    _as('binEdges', prop=True),
+    _as('binWidths', prop=True),
+    _as('errorBar', prop=True),
+    dict(dialect='list', module='taurex/data/spectrum/spectrum.py', cls='BaseSpectrum', func='create_binner',
+         lean='create_binner', params={}),
+    # the binner applied to a forward model: obs.create_binner().bin_model((native_wn, native_spectrum))
+    dict(dialect='list', module='taurex/binning/fluxbinner.py', cls='FluxBinner', func='bindown', callname='self.bindown',
+         lean='fluxbinner_bindown', params=dict(wngrid='list', spectrum='list', grid_width='none', error='none'),
+         attrs={'self._wngrid': ('u_wngrid', 'list'), 'self._wngrid_width': ('u_wngrid_width', 'list')}),
+    dict(dialect='list', module='taurex/binning/binner.py', cls='Binner', func='bin_model', lean='bin_model',
+         params=dict(model_output=('tuple', ('list', 'list')))),
+]
 SOURCES = ['array', 'text', 'hdf5']
 
 
